@@ -328,7 +328,8 @@ func extStreamRead(vc *VC, fr *Frame, st *State, args []Val, pos token.Pos) []Ou
 }
 
 // Read(p): any n with 1 <= n <= min(len(p), remaining) when data is available (a
-// bytes.Reader always delivers the minimum itself); (0, err) at end of data.
+// bytes.Reader always delivers the minimum itself); (remaining, err) when the rest fits into p
+// (final data together with the end-of-data error); (0, err) at end of data.
 func (vc *VC) streamRead(st *State, recv Val, buf SliceVal) []Outcome {
 	p, s := vc.getStream(st, recv)
 	var res []Outcome
@@ -363,6 +364,26 @@ func (vc *VC) streamRead(st *State, recv Val, buf SliceVal) []Outcome {
 			vc.writeLog[p.Cell] = true
 		}
 		res = append(res, Outcome{St: s1, Ret: []Val{n, Term{S: SErr, E: "err_nil"}}})
+	}
+	// the final bytes together with the end-of-data error in one call (io.Reader permits it;
+	// bytes.Reader never does it)
+	if !s.Exact && buf.Base.Cell != nil {
+		s3 := st.Clone()
+		s3.Assume(Not(Eq(buf.Len, zero)))
+		s3.Assume(avail)
+		rem := vc.iSub(s.Len, s.Pos)
+		s3.Assume(vc.iLe(rem, buf.Len, true))
+		if !s3.Infeasible() {
+			vc.copyIntoSlice(s3, buf, s, s.Pos, rem)
+			ns := s
+			ns.Pos = s.Len
+			s3.mem[p.Cell] = ns
+			s3.extWrites++
+			if vc.writeLog != nil {
+				vc.writeLog[p.Cell] = true
+			}
+			res = append(res, Outcome{St: s3, Ret: []Val{rem, s.EOFErr}})
+		}
 	}
 	s2 := st
 	s2.Assume(Not(Eq(buf.Len, zero)))
